@@ -34,7 +34,7 @@ CHECKS["C11"] = ("sched", "model_checking",
    "stateless model checking (DFS over schedules with prefix replay and a sleep-set style partial-order reduction) of the implementation under a hook-driven cooperative scheduler", "§5 C11")
 CHECKS["C12"] = ("reqs", "model_checking",
    "bounded exhaustive exploration of request sequences against the real main_loop: every message of a parameter alphabet (all handled methods, unknown methods, malformed params; URIs inside/outside the library; positions incl. out of range; rename names; code-action kinds and resolve data incl. stale ids) singly and in all ordered pairs (thorough: full pairs and triples with an edit in between); after each request the worker thread is joined and exactly one response with its id must exist, a liveness probe must answer like a fresh server, shutdown/exit must end the loop with Ok",
-   "no-response is decided by thread join (JoinHandle from the hooks), never by timeout; parameters are from the stated alphabet only",
+   "no-response is decided by thread join (JoinHandle from the hooks) or, for a request the loop serves without a worker, by the loop's own handled event; only a loop that reports nothing at all for 5 s is given up on (and then fails the case); parameters are from the stated alphabet only",
    "explicit-state enumeration of operation sequences (depth <= 2..3) on the implementation", "§5 C12")
 CHECKS["C05"] = ("libspace", "model_checking",
    "bounded exhaustive exploration of libraries: every library derivable from a link-placement x link-kind x url-form alphabet (4 notes in root and a sub-directory, one or two link blocks, several styles of the other notes) is imported by the real code; for every note and every missing name the backlink set reported by the graph API, textDocument/references and the inlay-hint counters must equal the set computed by an independent link scanner and path resolver",
